@@ -10,6 +10,7 @@
 import WR.C14.LemmasProto
 import WR.C14.LemmasLinks
 import WR.C14.LemmasBookmarks
+import WR.C14.LemmasParents
 namespace WR.Props.C14
 open WR.C14
 
@@ -112,15 +113,22 @@ theorem anchors_unique (cands : List (List (String × α))) :
     every non-empty id is defined; the empty name never is. -/
 theorem anchors_first_wins (cands : List (List (String × α))) (n : String) :
     findName n (documentAnchors cands).flatten = if n = "" then none else findName n cands.flatten := by
-  rw [documentAnchors, paged_find, flatten_pageAnchors_find]
+  have hnd : ∀ p ∈ cands.map pageAnchors, (p.map (·.1)).Nodup := by
+    intro p hp
+    simp only [List.mem_map] at hp
+    obtain ⟨c, _, rfl⟩ := hp
+    exact (gather_names c []).1
+  rw [documentAnchors, paged_find _ _ _ hnd, flatten_pageAnchors_find]
   simp
 
-/-- An anchor is listed on the page where its element lies (page lists correspond one to one and each
-    is a sub-list of that page's candidates). -/
+/-- An anchor is listed on the page where its element lies (page lists correspond one to one and every
+    listed anchor is one of that page's candidates), and every page list is in strictly increasing name
+    order — the order handed to CreateAnchors is determined by the document (sorted since /repo 37ac465). -/
 theorem anchors_on_their_page (cands : List (List (String × α))) :
     (documentAnchors cands).length = cands.length ∧
-    ∀ x ∈ List.zip (documentAnchors cands) cands, x.1.Sublist x.2 := by
-  obtain ⟨h1, h2⟩ := paged_sublist (cands.map pageAnchors) []
+    ∀ x ∈ List.zip (documentAnchors cands) cands,
+      (∀ a ∈ x.1, a ∈ x.2) ∧ x.1.Pairwise (fun a b => a.1 < b.1) := by
+  obtain ⟨h1, h2⟩ := paged_subset (cands.map pageAnchors) []
   refine ⟨by simpa [documentAnchors] using h1, ?_⟩
   intro x hx
   -- x = (out_i, cands_i); out_i ⊆ pageAnchors cands_i ⊆ cands_i
@@ -133,7 +141,14 @@ theorem anchors_on_their_page (cands : List (List (String × α))) :
       cases y; rfl
     rw [this]
     exact List.mem_map.mpr ⟨x, hx, rfl⟩
-  exact (h2 _ hz).trans (gather_sublist x.2 [])
+  obtain ⟨g1, g2⟩ := h2 _ hz
+  refine ⟨fun a ha => (gather_sublist x.2 []).subset (g1 a ha), ?_⟩
+  have hmem : x.1 ∈ documentAnchors cands := (List.of_mem_zip hx).1
+  refine paged_strict (cands.map pageAnchors) [] ?_ x.1 hmem
+  intro p hp
+  simp only [List.mem_map] at hp
+  obtain ⟨c, _, rfl⟩ := hp
+  exact (gather_names c []).1
 
 /-- Links: every emitted internal link names a defined anchor; nothing is invented or reordered; a link is
     dropped iff it is internal and its target is not defined. -/
@@ -184,6 +199,8 @@ theorem links_resolved (cands : List (List (String × α))) (links : List (List 
 example : resolveLinks [[("a", 0), ("", 1), ("a", 2)], [("b", 0), ("a", 1)]]
       [[⟨.internal, "b"⟩, ⟨.internal, "zz"⟩, ⟨.external, "http://x"⟩], [⟨.internal, "a"⟩]]
     = ([[⟨.internal, "b"⟩, ⟨.external, "http://x"⟩], [⟨.internal, "a"⟩]], [[("a", 0)], [("b", 0)]]) := by decide
+/-- … and the per-page order is the sorted one whatever the tree order -/
+example : documentAnchors [[("c", 0), ("a", 1), ("b", 2), ("a", 3)]] = [[("a", 1), ("b", 2), ("c", 0)]] := by decide
 
 /-! ## bookmarks -/
 
@@ -196,14 +213,25 @@ theorem bookmark_tree_spec_partial (levels : List Int) (h : ∀ l ∈ levels, 1 
       ∧ ∀ x ∈ List.zip ds levels, (x.1 : Int) ≤ x.2 :=
   bkRun_ok levels {} bkInv_init h
 
-/- Full statement (NOT proved; evaluated by `bookmarksJudge` on every outline the implementation
-   produces in the correspondence runs, and on the model's output in the examples below):
+/-- The parent clause: the parents read off the outline (nearest earlier entry with a smaller depth =
+    the entry under which `lastByDepth` hangs the node) are the nearest earlier entries with a smaller
+    bookmark-level; an entry is at top level iff no earlier entry has a smaller level. -/
+theorem bookmark_tree_parents (levels : List Int) (h : ∀ l ∈ levels, 1 ≤ l) (ds : List Nat)
+    (hok : bookmarkDepths levels = .ok ds) :
+    parents (ds.map Int.ofNat) = parents levels :=
+  bkRun_parents levels {} [] 0 ds bkInv_init h (by simp [levelsOf, stackOf]) hok
 
-   theorem bookmark_tree_spec (levels : List Int) (h : ∀ l ∈ levels, 1 ≤ l) :
-       ∃ ds, bookmarkDepths levels = .ok ds ∧ bookmarksJudge levels ds = true
-   i.e. additionally `parents (ds.map Int.ofNat) = parents levels`: the parent of entry i in the outline
-   (nearest earlier entry with a smaller depth) is the nearest earlier entry with a smaller level.
-   Missing: the refinement between the `skippedLevels` stack and the stack of open ancestors' levels. -/
+/-- The full statement: for every list of levels ≥ 1 makeBookmarkTree does not panic and its outline
+    satisfies the property's judge (one entry per bookmark in order, well-formed pre-order, parent =
+    nearest earlier entry with a smaller level, depth ≤ level) — the same `bookmarksJudge` the harness
+    evaluates on the outline the real code hands to SetBookmarks. -/
+theorem bookmark_tree_spec (levels : List Int) (h : ∀ l ∈ levels, 1 ≤ l) :
+    ∃ ds, bookmarkDepths levels = .ok ds ∧ bookmarksJudge levels ds = true := by
+  obtain ⟨ds, h1, h2, h3, h4⟩ := bookmark_tree_spec_partial levels h
+  refine ⟨ds, h1, ?_⟩
+  have hp := bookmark_tree_parents levels h ds h1
+  simp only [bookmarksJudge, Bool.and_eq_true, beq_iff_eq, List.all_eq_true, decide_eq_true_eq]
+  exact ⟨⟨⟨h2, h3⟩, hp⟩, fun x hx => h4 x hx⟩
 
 /-- non-vacuity, levels jumping both ways: h1 h3 h2 h1 h6 h3 h3 h1 -/
 example : bookmarkDepths [1, 3, 2, 1, 6, 3, 3, 1] = .ok [1, 2, 2, 1, 2, 2, 2, 1] := by rfl
